@@ -3,7 +3,7 @@
    against the ABSTRACT module ConsNet.  One scenario = init ... end.  Every event carries n = the node it concerns
    (its validator index); events of a fake peer carry p = the connection's id.
 
-     init      nodes [{n, minp, h0}], nv (validators), slow (settling mode)
+     init      nodes [{n, minp, h0, obs}], nv (validators), slow (settling mode); obs = all peers of the node are fake peers
      xdef      a payload the fake validators crafted: x (id = hash prefix), cls ok | bad | cat, start, end, from, type, h, view, txs
      conn      handshake of connection p with node n completed (adv = height the peer advertises)
      close     connection ended (by = node | peer)
@@ -39,13 +39,16 @@ Init == /\ l = 1 /\ ep = 1 /\ nv = 4 /\ ND = <<>> /\ ST = <<>> /\ XD = <<>> /\ S
 
 Put(f, k, v) == (k :> v) @@ f
 Has(f, k) == k \in DOMAIN f
-Cnt(n, x) == IF Has(DC, <<n, x>>) THEN DC[<<n, x>>].c ELSE 0
-Def(x) == IF Has(XD, x) THEN XD[x] ELSE [cls |-> "unknown", start |-> 0, end |-> 0, type |-> "", h |-> 0, view |-> 0, from |-> -1, txs |-> {}, own |-> FALSE]
+Def(x) == IF Has(XD, x) THEN XD[x] ELSE [cls |-> "unknown", start |-> 0, end |-> 0, type |-> "", h |-> 0, view |-> 0, from |-> -1, txs |-> {}, own |-> FALSE, hx |-> x]
+\* a payload's identity on the wire is its hash hx (inv / getdata / the pool); two COPIES x of one hash may differ in their witness
+Copies(hx) == {x \in DOMAIN XD : XD[x].hx = hx}
+RelayableHash(hx) == \E x \in Copies(hx) : ~MustNotRelay(XD[x])
+Cnt(n, x) == IF Has(DC, <<n, Def(x).hx>>) THEN DC[<<n, Def(x).hx>>].c ELSE 0
 
 Open(n)          == {k[2] : k \in {k \in DOMAIN CN : k[1] = n /\ CN[k].open}}
 Ever(n)          == {k[2] : k \in {k \in DOMAIN CN : k[1] = n}}
 Steady(n, e)     == {p \in Open(n) : CN[<<n, p>>].e < e}      \* connected since before epoch e began, still connected
-Senders(n, x)    == {s.p : s \in {s \in SN : s.n = n /\ s.x = x}}
+Senders(n, x)    == {s.p : s \in {s \in SN : s.n = n /\ Def(s.x).hx = Def(x).hx}}
 Told(n)          == {<<k[2], k[3]>> : k \in {k \in IV : k[1] = n}}
 BTold(n)         == {<<k[2], k[3]>> : k \in {k \in BI : k[1] = n}}
 Good(n)          == {o.t : o \in {o \in OF : o.n = n /\ o.ok}}
@@ -70,14 +73,19 @@ SyncChecks(e) ==
         rcv == {r \in SN : r.n = n /\ r.e = E /\ r.p \in Open(n)}
         must == {r.x : r \in {r \in rcv : ran /\ MustDeliver(Def(r.x), hq, hn)}}
         ownE == {o.x : o \in {o \in OW : o.n = n /\ o.e = E}}
-        dlvE == {k[2] : k \in {k \in DOMAIN DC : k[1] = n /\ DC[k].e = E}}
+        dlvE == {DC[k].x : k \in {k \in DOMAIN DC : k[1] = n /\ DC[k].e = E}}
         lostD == {x \in must : Cnt(n, x) = 0}
         futD  == {x \in dlvE : Def(x).start > hn}
-        notRelayed == {x \in (must \cup ownE) : ~Relayed(x, Steady(n, E) \ Senders(n, x), Told(n))}
-        senderOnly == {x \in notRelayed : ~NotOnlyBackToSender(x, Senders(n, x), Steady(n, E) \ Senders(n, x), Told(n))}
+        notRelayed == {x \in (must \cup ownE) : ~Relayed(Def(x).hx, Steady(n, E) \ Senders(n, x), Told(n))}
+        senderOnly == {x \in notRelayed : ~NotOnlyBackToSender(Def(x).hx, Senders(n, x), Steady(n, E) \ Senders(n, x), Told(n))}
         \* getdata for payloads the node surely holds
-        holds(x) == (Cnt(n, x) > 0 \/ Def(x).own) /\ Def(x).cls = "ok" /\ hn < Def(x).end
-        unansw == {g \in GX : g.n = n /\ g.e = E /\ g.p \in Open(n) /\ holds(g.x) /\ <<n, g.p, g.x>> \notin RX}
+        \* getdata for payloads the node surely holds: handed to the service / broadcast in an EARLIER epoch, window still open
+        heldX == {DC[k].x : k \in {k \in DOMAIN DC : k[1] = n /\ DC[k].e < E}} \cup {o.x : o \in {o \in OW : o.n = n /\ o.e < E}}
+        held == {Def(x).hx : x \in {x \in heldX : Def(x).cls = "ok" /\ hn < Def(x).end}}
+        unansw == {g \in GX : g.n = n /\ g.e = E /\ g.p \in Open(n) /\ g.x \in held /\ <<n, g.p, g.x>> \notin RX}
+        \* a peer that completed its handshake in this epoch without being ahead of the node is told what the pool holds
+        newp == {p \in Open(n) : CN[<<n, p>>].e = E /\ CN[<<n, p>>].adv <= hq}
+        notAdv == IF ran THEN {<<p, x>> \in newp \X held : <<p, x>> \notin Told(n)} ELSE {}
         \* ---- the proposal the node is working on
         hasR == Has(LR, n)
         R    == IF hasR THEN LR[n] ELSE [x |-> "", pb |-> {}, e |-> 0, first |-> FALSE]
@@ -102,7 +110,8 @@ SyncChecks(e) ==
         askedOther == {p \in Steady(n, E) : rq # {} /\ ~(got(p) \subseteq want)}
         \* ---- blocks
         qE   == {q \in QB : q.n = n /\ q.e = E}
-        notLedger == {q \in qE : ~(Has(AB, <<n, q.i>>) /\ AB[<<n, q.i>>] = q.b)}
+        \* a block the node itself signed (its Commit) and its service assembled is in its ledger
+        notLedger == {q \in qE : OwnAt(n, "Commit", q.i) # {} /\ ~(Has(AB, <<n, q.i>>) /\ AB[<<n, q.i>>] = q.b)}
         accE == {k \in DOMAIN AB : k[1] = n /\ k[2] > hq /\ k[2] <= hn}
         notAnn == {k \in accE : ~Announced(AB[k], {p \in Steady(n, E) : CN[<<n, p>>].adv < k[2]}, BTold(n))}
         wrongB == {g \in GB : g.n = n /\ Has(AB, <<n, g.i>>) /\ AB[<<n, g.i>>] # g.b}
@@ -114,7 +123,7 @@ SyncChecks(e) ==
     IN  Report(l,
                NameIf(lostD = {}, "Delivery:missing") \cup NameIf(futD = {}, "InvalidAccepted:future-delivered")
                \cup NameIf(notRelayed = {}, "Relay:missing") \cup NameIf(senderOnly = {}, "i:Relay:sender-only")
-               \cup NameIf(unansw = {}, "Relay:getdata-unanswered")
+               \cup NameIf(unansw = {}, "Relay:getdata-unanswered") \cup NameIf(notAdv = {}, "Relay:not-advertised")
                \* a missing / refused answer to ONE proposal only delays the height (the timer and the next view resolve it): these are
                \* informational; what is judged is that the height gets decided (event decide) and that nothing unverified is accepted
                \cup NameIf(~allgood \/ resp, "i:ProposalTxs:no-response") \cup NameIf(~allgood \/ ~cv, "i:ProposalTxs:refused-good")
@@ -125,7 +134,7 @@ SyncChecks(e) ==
                \cup NameIf(~mustRun \/ s.started, "ServiceStart:not-started")
                \cup NameIf(e.h = s.ht, "x:LedgerCount"),
                [ev |-> [n |-> n, h |-> hn, epoch |-> E], lost |-> lostD, future |-> futD, notRelayed |-> notRelayed,
-                unanswered |-> unansw, proposal |-> R.x, current |-> cur, allgood |-> allgood, onlybad |-> onlybad,
+                unanswered |-> unansw, notAdvertised |-> notAdv, proposal |-> R.x, current |-> cur, allgood |-> allgood, onlybad |-> onlybad,
                 named |-> IF cur THEN d.txs ELSE {}, good |-> IF cur THEN Good(n) \cap d.txs ELSE {}, bad |-> IF cur THEN Bad(n) \cap d.txs ELSE {},
                 want |-> want, notAsked |-> notAsked, askedOther |-> askedOther,
                 notLedger |-> notLedger, notAnnounced |-> {<<k[2], AB[k]>> : k \in notAnn}, wrongBlock |-> wrongB, unfetched |-> unfetched,
@@ -146,7 +155,7 @@ Step ==
               /\ PG' = [base |-> 0, rounds |-> 0]
          [] e.event = "xdef" ->
               /\ XD' = Put(XD, e.x, [cls |-> e.cls, start |-> e.start, end |-> e.end, type |-> e.type, h |-> e.h, view |-> e.view,
-                                     from |-> e.from, txs |-> ToSet(e.txs), own |-> FALSE])
+                                     from |-> e.from, txs |-> ToSet(e.txs), own |-> FALSE, hx |-> e.hx])
               /\ Unch(<<ep, nv, ND, ST, SN, DC, IV, CN, DIRTY, OF, RQ, AK, OW, QB, AB, BI, TO, FQ, GX, RX, GB, LR, PG>>)
          [] e.event = "conn" ->
               /\ CN' = Put(CN, <<e.n, e.p>>, [adv |-> e.adv, e |-> ep, open |-> TRUE])
@@ -165,7 +174,7 @@ Step ==
                    [] e.m = "tx" ->
                         /\ OF' = OF \cup {[n |-> e.n, t |-> e.t, ok |-> e.ok, e |-> ep, l |-> l]}
                         /\ Unch(<<SN, DIRTY, FQ, GX>>)
-                   [] e.m = "getdata" /\ e.typ = "block" ->
+                   [] e.m \in {"getdata", "getblockbyindex"} /\ e.typ = "block" ->
                         /\ FQ' = FQ \cup {[n |-> e.n, p |-> e.p, b |-> b, e |-> ep] : b \in ToSet(e.hs)}
                         /\ Unch(<<SN, DIRTY, OF, GX>>)
                    [] e.m = "getdata" /\ e.typ = "ext" ->
@@ -176,10 +185,10 @@ Step ==
          [] e.event = "r" ->
               /\ CASE e.m = "inv" /\ e.typ = "ext" ->
                         /\ IV' = IV \cup {<<e.n, e.p, x>> : x \in ToSet(e.hs)}
-                        /\ Report(l, NameIf(\A x \in ToSet(e.hs) : ~MustNotRelay(Def(x)), "InvalidAccepted:relayed")
-                                     \cup NameIf(\A x \in ToSet(e.hs) : Has(XD, x), "x:UnknownInv")
+                        /\ Report(l, NameIf(\A x \in ToSet(e.hs) : Copies(x) = {} \/ RelayableHash(x), "InvalidAccepted:relayed")
+                                     \cup NameIf(\A x \in ToSet(e.hs) : Copies(x) # {}, "x:UnknownInv")
                                      \cup NameIf(\A x \in ToSet(e.hs) : <<e.n, e.p, x>> \notin IV, "i:RelayRepeated")
-                                     \cup NameIf(\A x \in ToSet(e.hs) : Def(x).cls # "cat", "i:OtherCategoryRelayed"), [ev |-> e])
+                                     \cup NameIf(\A x \in ToSet(e.hs) : \A c \in Copies(x) : XD[c].cls # "cat", "i:OtherCategoryRelayed"), [ev |-> e])
                         /\ Unch(<<BI, AK, RX, GB>>)
                    [] e.m = "inv" /\ e.typ = "block" ->
                         /\ BI' = BI \cup {<<e.n, e.p, b>> : b \in ToSet(e.hs)}
@@ -189,9 +198,9 @@ Step ==
                         /\ Report(l, NameIf(Len(e.hs) <= 500, "i:GetDataOverMaxHashes"), [n |-> Len(e.hs)])
                         /\ Unch(<<IV, BI, RX, GB>>)
                    [] e.m = "extensible" ->
-                        /\ RX' = RX \cup {<<e.n, e.p, e.x>>}
+                        /\ RX' = RX \cup {<<e.n, e.p, e.hx>>}
                         /\ Report(l, NameIf(~MustNotRelay(Def(e.x)), "InvalidAccepted:served")
-                                     \cup NameIf(\E g \in GX : g.n = e.n /\ g.p = e.p /\ g.x = e.x, "i:UnsolicitedExtensible"), [ev |-> e])
+                                     \cup NameIf(\E g \in GX : g.n = e.n /\ g.p = e.p /\ g.x = e.hx, "i:UnsolicitedExtensible"), [ev |-> e])
                         /\ Unch(<<IV, BI, AK, GB>>)
                    [] e.m = "block" ->
                         /\ GB' = GB \cup {[n |-> e.n, p |-> e.p, i |-> e.i, b |-> e.b]}
@@ -200,10 +209,10 @@ Step ==
                    [] OTHER -> Unch(<<IV, BI, AK, RX, GB>>)
               /\ Unch(<<ep, nv, ND, ST, XD, SN, DC, CN, DIRTY, OF, RQ, OW, QB, AB, TO, FQ, GX, LR, PG>>)
          [] e.event = "deliver" ->
-              /\ DC' = IF Has(DC, <<e.n, e.x>>) THEN [DC EXCEPT ![<<e.n, e.x>>].c = @ + 1] ELSE Put(DC, <<e.n, e.x>>, [c |-> 1, e |-> ep, l |-> l])
-              /\ LR' = IF Def(e.x).type = "PrepareRequest" /\ Def(e.x).cls = "ok" /\ ~Has(DC, <<e.n, e.x>>)
+              /\ DC' = IF Has(DC, <<e.n, e.hx>>) THEN [DC EXCEPT ![<<e.n, e.hx>>].c = @ + 1] ELSE Put(DC, <<e.n, e.hx>>, [c |-> 1, e |-> ep, l |-> l, x |-> e.x])
+              /\ LR' = IF Def(e.x).type = "PrepareRequest" /\ Def(e.x).cls = "ok" /\ ~Has(DC, <<e.n, e.hx>>)
                        THEN Put(LR, e.n, [x |-> e.x, pb |-> ST[e.n].pool, e |-> ep,
-                                          first |-> ~\E k \in DOMAIN DC : k[1] = e.n /\ Def(k[2]).type = "PrepareRequest" /\ Def(k[2]).h = Def(e.x).h /\ Def(k[2]).view = Def(e.x).view])
+                                          first |-> ~\E k \in DOMAIN DC : k[1] = e.n /\ Def(DC[k].x).type = "PrepareRequest" /\ Def(DC[k].x).h = Def(e.x).h /\ Def(DC[k].x).view = Def(e.x).view])
                        ELSE LR
               /\ Report(l, NameIf(Has(XD, e.x), "x:UnknownPayload")
                            \cup NameIf(~Has(XD, e.x) \/ Def(e.x).cls = "ok", "InvalidAccepted:delivered")
@@ -213,12 +222,12 @@ Step ==
               /\ Unch(<<ep, nv, ND, ST, XD, SN, IV, CN, DIRTY, OF, RQ, AK, OW, QB, AB, BI, TO, FQ, GX, RX, GB, PG>>)
          [] e.event = "own" ->
               /\ XD' = Put(XD, e.x, [cls |-> "ok", start |-> 0, end |-> e.end, type |-> e.type, h |-> e.h, view |-> e.view,
-                                     from |-> e.vi, txs |-> ToSet(e.txs), own |-> TRUE])
+                                     from |-> e.vi, txs |-> ToSet(e.txs), own |-> TRUE, hx |-> e.x])
               /\ OW' = OW \cup {[n |-> e.n, x |-> e.x, type |-> e.type, h |-> e.h, view |-> e.view, e |-> ep]}
               /\ LET R == IF Has(LR, e.n) THEN LR[e.n] ELSE [x |-> "", pb |-> {}, e |-> 0, first |-> FALSE]
                      d == Def(R.x)
                      vouch == e.type \in {"PrepareResponse", "Commit"} /\ Has(LR, e.n) /\ d.h = e.h /\ d.view = e.view
-                              /\ ND[e.n].id # d.from
+                              /\ ND[e.n].id # d.from /\ ND[e.n].obs     \* (obs: every source of transactions of this node is a fake peer)
                  IN Report(l, NameIf(~vouch \/ ResponseJustified(d.txs, ST[e.n].pever \cup R.pb, Good(e.n)), "ProposalTxs:accepted-unverified")
                               \cup NameIf(~(e.type = "PrepareRequest" /\ e.view = 0) \/ ST[e.n].pool \subseteq ToSet(e.txs), "ProposalTxs:pending-left-out")
                               \cup NameIf(Own(e.n, e.type, e.h, e.view) = {} \/ e.type \in {"RecoveryMessage", "RecoveryRequest", "ChangeView"}, "i:OwnRepeated"),
